@@ -15,7 +15,9 @@ Inductive ty :=
 | TStr | TInt | TFloat | TBool | TBytes | TDatetime | TDate | TUuid | TTime | TAny
 | TList (t : ty) | TDict (t : ty)      (* List[t] / Dict[str, t] *)
 | TOpt (t : ty)                          (* Optional[t] = t | None — handled by the Union hook *)
-| TData (c : N).                         (* a dataclass, by id in the class table *)
+| TData (c : N)                          (* a dataclass, by id in the class table *)
+| TFwd (c : N).                          (* an unresolved ForwardRef("C") left inside a generic (List["C"]):
+                                            cattrs has no hook for it (finding F03c) *)
 
 Inductive json :=
 | JNull | JBool (b : bool) | JInt (z : Z) | JFloat (z : Z) | JStr (s : str)
@@ -56,7 +58,7 @@ Fixpoint ty_eqb (a b : ty) : bool :=
   | TStr, TStr | TInt, TInt | TFloat, TFloat | TBool, TBool | TBytes, TBytes | TDatetime, TDatetime
   | TDate, TDate | TUuid, TUuid | TTime, TTime | TAny, TAny => true
   | TList x, TList y | TDict x, TDict y | TOpt x, TOpt y => ty_eqb x y
-  | TData c, TData d => N.eqb c d
+  | TData c, TData d | TFwd c, TFwd d => N.eqb c d
   | _, _ => false
   end.
 
@@ -142,7 +144,7 @@ Definition mem_N (c : N) (l : list N) : bool := existsb (N.eqb c) l.
 
 Fixpoint ty_classes (T : ty) : list N :=
   match T with
-  | TData c => [c]
+  | TData c | TFwd c => [c]               (* get_type_hints resolves the reference for registration *)
   | TList X | TDict X | TOpt X => ty_classes X
   | _ => []
   end.
@@ -211,7 +213,7 @@ Section Conv.
     | TBytes => match b64dec s with Some b => Ok (VBytes b) | None => Err end
     | TDatetime => structure_datetime s
     | TDate => match date_parse s with Some c => Ok (VDate c) | None => Err end
-    | TUuid | TTime => Err                       (* StructureHandlerNotFoundError (F03a) *)
+    | TUuid | TTime | TFwd _ => Err              (* StructureHandlerNotFoundError (F03a, F03c) *)
     | TAny => Ok (VStr s)
     | TList X => bind (map_result (fun c => structure_str X [c]) s) (fun l => Ok (VList l))
     | TDict _ => Err                             (* 'str' object has no attribute 'items' *)
@@ -295,7 +297,7 @@ Section Conv.
     | TBool => Ok (VBool (truthy j))
     | TBytes => Ok (inject j)          (* structure_with_base64_bytes returns non-str data unchanged *)
     | TDatetime | TDate => Err         (* TypeError("Cannot convert ...") *)
-    | TUuid | TTime => Err
+    | TUuid | TTime | TFwd _ => Err
     | TAny => Ok (inject j)
     | TList X =>
         match j with
@@ -358,7 +360,7 @@ Section Conv.
   Definition unstructure_nonopt (v : value) (kl : list (ty -> result json))
       (kd : list (str * (ty -> result json))) (T : ty) : result json :=
     match T with
-    | TStr | TInt | TFloat | TBool | TUuid | TTime => project v           (* identity *)
+    | TStr | TInt | TFloat | TBool | TUuid | TTime | TFwd _ => project v  (* identity *)
     | TBytes => match v with VBytes b => Ok (JStr (b64enc b)) | _ => Err end
     | TDatetime | TDate => match v with VDatetime s | VDate s => Ok (JStr s) | _ => Err end
     | TAny =>
